@@ -131,17 +131,17 @@ def cfgFree : Expr → Bool
   | .binop _ a b => cfgFree a && cfgFree b
   | _ => true
 
-/- data reads of a right-hand side -/
+/- data reads of a right-hand side (flag: inside the argument of an extern call) -/
 mutual
-def readsE : Expr → List (Sym × List Expr)
-  | .read x idx => [(x, idx)]
-  | .usub e => readsE e
-  | .binop _ a b => readsE a ++ readsE b
-  | .extern _ args => readsEs args
+def readsE (inExt : Bool) : Expr → List (Bool × Sym × List Expr)
+  | .read x idx => [(inExt, x, idx)]
+  | .usub e => readsE inExt e
+  | .binop _ a b => readsE inExt a ++ readsE inExt b
+  | .extern _ args => readsEs true args
   | _ => []
-def readsEs : List Expr → List (Sym × List Expr)
+def readsEs (inExt : Bool) : List Expr → List (Bool × Sym × List Expr)
   | [] => []
-  | e :: r => readsE e ++ readsEs r
+  | e :: r => readsE inExt e ++ readsEs inExt r
 end
 
 /-! ### symbolic typing context -/
@@ -195,9 +195,10 @@ def accessObs (Γ : TyEnv) (P : List Expr) (kind : String) (x : Sym) (idx : List
   | none => [.wf (kind ++ ": unknown buffer " ++ toString x) false]
   | some t => boundObs (if t.isWin then kind ++ "@win" else kind) P idx t.shape
 
-def readObs (Γ : TyEnv) (P : List Expr) : List (Sym × List Expr) → List Ob
+def readObs (Γ : TyEnv) (P : List Expr) : List (Bool × Sym × List Expr) → List Ob
   | [] => []
-  | (x, idx) :: r => accessObs Γ P "read" x idx ++ readObs Γ P r
+  | (inExt, x, idx) :: r =>
+      accessObs Γ P (if inExt then "read@extern" else "read") x idx ++ readObs Γ P r
 
 /-! ### windows -/
 
@@ -383,9 +384,9 @@ def ctxAfter (Γ : TyEnv) (P : List Expr) : Stmt → TyEnv × List Expr
 
 mutual
 def genS (Γ : TyEnv) (P : List Expr) : Stmt → List Ob
-  | .assign x idx rhs => readObs Γ P (readsE rhs) ++ accessObs Γ P "write" x idx
-  | .reduce x idx rhs => readObs Γ P (readsE rhs) ++ accessObs Γ P "reduce" x idx
-  | .writecfg _ _ rhs isData => if isData then readObs Γ P (readsE rhs) else []
+  | .assign x idx rhs => readObs Γ P (readsE false rhs) ++ accessObs Γ P "write" x idx
+  | .reduce x idx rhs => readObs Γ P (readsE false rhs) ++ accessObs Γ P "reduce" x idx
+  | .writecfg _ _ rhs isData => if isData then readObs Γ P (readsE false rhs) else []
   | .pass => []
   | .free _ => []
   | .ite c t e => genL Γ (addFacts P [c]) t ++ genL Γ (addFacts P [eNot c]) e
@@ -517,14 +518,29 @@ def readsR (Γ : REnv) (P : List Expr) : List (Sym × List Expr) → List VC
   | [] => []
   | (x, idx) :: r => resolveR "read" P Γ x idx .read ++ readsR Γ P r
 
-/-- total substitution of control formals (names that are not formals are left alone) -/
-def substT (θ : List (Sym × Expr)) : Expr → Expr
+/-- total substitution of the formals of a call (`loopir_subst`): control formals ↦ actuals,
+    `stride(formal, d)` ↦ `stride(actual buffer, dimension d of the window)`; names that are not
+    formals are left alone -/
+def substT (θ : List (Sym × Expr)) (θv : List (Sym × (Sym × List Nat))) : Expr → Expr
   | .read y [] => match lookupSym y θ with
       | some e => e
       | none => .read y []
-  | .usub e => .usub (substT θ e)
-  | .binop op a b => .binop op (substT θ a) (substT θ b)
+  | .usub e => .usub (substT θ θv e)
+  | .binop op a b => .binop op (substT θ θv a) (substT θ θv b)
+  | .stride y d => match lookupSym y θv with
+      | some (x, dm) => match dm[d]? with
+          | some d' => .stride x d'
+          | none => .stride y d
+      | none => .stride y d
   | e => e
+
+/-- reads the real checker extracts effects for: `eff_e` returns the empty effect for an extern
+    call, so reads inside its arguments are never seen -/
+def readsReal : Expr → List (Sym × List Expr)
+  | .read x idx => [(x, idx)]
+  | .usub e => readsReal e
+  | .binop _ a b => readsReal a ++ readsReal b
+  | _ => []
 
 /-- symbolic extents of a name as the real type checker records them -/
 def shapeR : REnv → Sym → Option (List Expr)
@@ -557,23 +573,33 @@ def argRootR (Γ : REnv) : Expr → Option Sym
   | .win x _ => some (rootR Γ x)
   | _ => none
 
-/-- bind the formals of an inlined callee -/
-def bindR : List FnArg → List Expr → REnv → List (Sym × Expr) → REnv × List (Sym × Expr)
-  | ⟨y, .ctrl _⟩ :: fs, a :: as, Γ, θ => bindR fs as Γ ((y, a) :: θ)
-  | ⟨y, _⟩ :: fs, a :: as, Γ, θ =>
-      let ty := match a with
-        | .read x [] => RTy.alias x
-        | .win x acc => RTy.winarg x acc
-        | _ => RTy.skip
-      bindR fs as ((y, ty) :: Γ) θ
-  | _, _, Γ, θ => (Γ, θ)
+structure BindR where
+  env : REnv
+  ctrl : List (Sym × Expr)
+  views : List (Sym × (Sym × List Nat))
 
-def eqShapeR (P : List Expr) (θ : List (Sym × Expr)) (a s : List Expr) : VC :=
-  ⟨"call-shape", P, andAll ((a.zip s).map (fun p => eEq p.1 (substT θ p.2)))⟩
+/-- bind the formals of an inlined callee -/
+def bindR : List FnArg → List Expr → BindR → BindR
+  | ⟨y, .ctrl _⟩ :: fs, a :: as, b => bindR fs as { b with ctrl := (y, a) :: b.ctrl }
+  | ⟨y, .scalar⟩ :: fs, a :: as, b =>
+      bindR fs as { b with env := (y, match a with
+        | .read x [] => RTy.alias x
+        | _ => RTy.skip) :: b.env }
+  | ⟨y, .tensor sh _⟩ :: fs, a :: as, b =>
+      bindR fs as (match a with
+        | .read x [] => { b with env := (y, RTy.alias x) :: b.env,
+                                 views := (y, (x, List.range sh.length)) :: b.views }
+        | .win x acc => { b with env := (y, RTy.winarg x acc) :: b.env,
+                                 views := (y, (x, winDims 0 acc)) :: b.views }
+        | _ => { b with env := (y, RTy.skip) :: b.env })
+  | _, _, b => b
+
+def eqShapeR (P : List Expr) (b : BindR) (a s : List Expr) : VC :=
+  ⟨"call-shape", P, andAll ((a.zip s).map (fun p => eEq p.1 (substT b.ctrl b.views p.2)))⟩
 
 /-- call-site checks of `CheckBounds` (positivity of size arguments and of argument extents,
     shape equality, callee assertions) and of `Check_Aliasing` (path-insensitive) -/
-def callChecksR (Γ : REnv) (P : List Expr) (θ : List (Sym × Expr)) :
+def callChecksR (Γ : REnv) (P : List Expr) (θ : BindR) :
     List FnArg → List Expr → List VC
   | ⟨_, .ctrl .size⟩ :: fs, a :: as => ⟨"call-size", P, eLt (eInt 0) a⟩ :: callChecksR Γ P θ fs as
   | ⟨_, .tensor shape _⟩ :: fs, a :: as =>
@@ -588,15 +614,15 @@ def numericRoots (Γ : REnv) : List FnArg → List Expr → List Sym
   | _ :: fs, a :: as => (match argRootR Γ a with | some r => [r] | none => []) ++ numericRoots Γ fs as
   | _, _ => []
 
-def substVC (θ : List (Sym × Expr)) (P : List Expr) (v : VC) : VC :=
-  ⟨v.kind, v.path.map (substT θ) ++ P, substT θ v.goal⟩
+def substVC (b : BindR) (P : List Expr) (v : VC) : VC :=
+  ⟨v.kind, v.path.map (substT b.ctrl b.views) ++ P, substT b.ctrl b.views v.goal⟩
 
 mutual
 /-- `inl` = inside an inlined callee body (only effects on the caller's buffers matter there) -/
 def realS (Γ : REnv) (P : List Expr) (inl : Bool) : Stmt → List VC
-  | .assign x idx rhs => readsR Γ P (readsE rhs) ++ resolveR "write" P Γ x idx .write
-  | .reduce x idx rhs => readsR Γ P (readsE rhs) ++ resolveR "reduce" P Γ x idx .write
-  | .writecfg _ _ rhs isData => if isData then readsR Γ P (readsE rhs) else []
+  | .assign x idx rhs => readsR Γ P (readsReal rhs) ++ resolveR "write" P Γ x idx .write
+  | .reduce x idx rhs => readsR Γ P (readsReal rhs) ++ resolveR "reduce" P Γ x idx .write
+  | .writecfg _ _ rhs isData => if isData then readsR Γ P (readsReal rhs) else []
   | .pass => []
   | .free _ => []
   | .ite c t e => realL Γ (c :: P) inl t ++ realL Γ (eNot c :: P) inl e
@@ -609,12 +635,12 @@ def realS (Γ : REnv) (P : List Expr) (inl : Bool) : Stmt → List VC
   | .call f args => realCall Γ P inl f args
 def realCall (Γ : REnv) (P : List Expr) (inl : Bool) : Proc → List Expr → List VC
   | .mk _ fargs preds body, args =>
-      let bθ := bindR fargs args Γ []
+      let b := bindR fargs args ⟨Γ, [], []⟩
       (if inl then [] else
-        callChecksR Γ P bθ.2 fargs args ++
-        preds.map (fun p => ⟨"call-assert", P, substT bθ.2 p⟩) ++
+        callChecksR Γ P b fargs args ++
+        preds.map (fun p => ⟨"call-assert", P, substT b.ctrl b.views p⟩) ++
         [⟨"call-alias", [], eBool (nodupB (numericRoots Γ fargs args))⟩]) ++
-      (realL bθ.1 (sizeFacts fargs) true body).map (substVC bθ.2 P)
+      (realL b.env (sizeFacts fargs) true body).map (substVC b P)
 def realL (Γ : REnv) (P : List Expr) (inl : Bool) : List Stmt → List VC
   | [] => []
   | s :: r =>
